@@ -15,4 +15,4 @@ CONSTANTS
   TxShapes = "small"
 VIEW View
 CONSTRAINT RecentParents
-INVARIANTS TypeOK HeadValidated BodiesValid UnspentIsReplay IndexConsistent NoDupUnspent SpentIdxInv SumsInv MaturityLockInv OnlyValidRemembered RewindInv
+INVARIANTS TypeOK HeadValidated BodiesValid UnspentIsReplay IndexConsistent NoDupUnspent EnumInv SpentIdxInv SumsInv MaturityLockInv OnlyValidRemembered RewindInv
